@@ -330,6 +330,24 @@ def r2_sequence(program, folder, rep):
               node=c_start)
     rep.assume("assert statements are enabled (the count bound and the "
                "packed-struct length are checked by assert in boot())")
+    # the end datagram is not sent when sending stopped half-way: it is not
+    # in a finally clause or an exception handler
+    n_ = c_end
+    in_cleanup = False
+    while n_ is not None and n_ is not fn:
+        par = getattr(n_, "_parent", None)
+        if isinstance(par, ast.Try) and any(n_ is x for x in par.finalbody):
+            in_cleanup = True
+        if isinstance(n_, ast.ExceptHandler):
+            in_cleanup = True
+        n_ = par
+    rep.check(not in_cleanup, "C20-R2", inst, "the end datagram is sent only "
+              "when every block has been sent (not from a finally clause or "
+              "an exception handler)", construct="end not on failure",
+              node=c_end,
+              fail="the end datagram is sent from a finally clause / "
+                   "exception handler: when sending fails half-way the "
+                   "machine is told to start an incomplete image")
     e1 = b_end.get("arg1")
     rep.check(e1 is not None and const(e1) == 1, "C20-R2", inst,
               "the end datagram carries arg1 = 1", construct="end arg1",
